@@ -111,10 +111,18 @@ func runVirtual(r *walkRec) (calls [][]int, pm string) {
 	return calls, ""
 }
 
+// modelHistory: the behaviours replayed just before the current one in this process. A violation may depend on
+// them (state kept across Walk calls, e.g. after a walk that Post aborted), so they travel with the replay record.
+var modelHistory []*walkRec
+
 func walkCheckModel(res *Result, r *walkRec) {
 	res.Evaluations++
 	got, pm := runVirtual(r)
-	rec := map[string]any{"kind": "walk-model", "rec": r}
+	rec := map[string]any{"kind": "walk-model", "rec": r, "prev": append([]*walkRec(nil), modelHistory...)}
+	modelHistory = append(modelHistory, r)
+	if len(modelHistory) > 2 {
+		modelHistory = modelHistory[1:]
+	}
 	key := fmt.Sprint(r.Par, r.Blk, r.VRoot, r.Prune, r.Abort, r.PreNil, r.PostNil)
 	if len(r.Par) >= 3 {
 		res.nontrivialKey(key)
@@ -152,6 +160,8 @@ type walkReplay struct {
 	Abort   int    `json:"abort"`
 	PreNil  int    `json:"preNil"`
 	PostNil int    `json:"postNil"`
+	// the walk made just before this one in the generating process (a violation may depend on it)
+	Prev *walkReplay `json:"prev,omitempty"`
 }
 
 // number the nodes of a real tree in pre-order by the harness's own traversal
@@ -225,6 +235,13 @@ func cmdWalk(args []string) *Result {
 		rec := readReplay(args[1])
 		var r walkRec
 		mustUnmarshal([]byte(jsonString(rec["rec"])), &r)
+		var prev []*walkRec
+		if rec["prev"] != nil {
+			mustUnmarshal([]byte(jsonString(rec["prev"])), &prev)
+		}
+		for _, p := range prev {
+			runVirtual(p) // re-establish the history the case was observed after
+		}
 		walkCheckModel(res, &r)
 		return res
 	}
@@ -245,7 +262,19 @@ func cmdWalk(args []string) *Result {
 	}
 	sw := newShardWriter(args[1], envInt("VERIF_SHARDS", 8))
 	defer sw.close()
+	var last *walkReplay
 	one := func(input []byte, rp *walkReplay) {
+		if rp.Prev != nil && last == nil {
+			// regenerating a single case: first repeat the walk that preceded it
+			if pb, pm := parseRoute(bytesOf(rp.Prev.Input), 0); pm == "" && rp.Prev.Root < len(pb) {
+				walkReal(pb[rp.Prev.Root], rp.Prev)
+			}
+		} else if last != nil {
+			cp := *last
+			cp.Prev = nil
+			rp.Prev = &cp
+		}
+		defer func() { last = rp }()
 		blocks, pm := parseRoute(input, 0)
 		if pm != "" || rp.Root >= len(blocks) {
 			return
